@@ -593,6 +593,19 @@ func exact(mv *data_model.MultiValue, sf float64) bool {
 
 var rowMetrics = []int32{1, 2, 77, 101, 102, 103, 104, 105, 106, 107, 103, 105, format.BuiltinMetricIDIngestionStatus, format.BuiltinMetricIDAgentSamplingFactor, format.BuiltinMetricIDAggMappingCreated, format.BuiltinMetricIDBadges, format.BuiltinMetricIDContributorsLog, -1000000}
 
+// what a lookup of a metric id in the insert's metricIndexCache finds (Insert.Model.mres)
+func mresTerm(m int32) string {
+	a, b, c := aggregator.VerifInsSkips(m) // a fresh cache: the metric's own flags
+	fl := fmt.Sprintf("%s %s %s", vu.B(a), vu.B(b), vu.B(c))
+	if m == format.BuiltinMetricIDIngestionStatus {
+		return "D " + fl
+	}
+	if _, ok := format.BuiltinMetrics[m]; ok || (m >= 101 && m <= 107) {
+		return "F " + fl
+	}
+	return "U"
+}
+
 var builtinIDsCache []int32
 
 func builtinIDs() []int32 {
@@ -648,10 +661,34 @@ func rowCase(o *vu.Out, r *vu.Rng, idx int) {
 	skMax, skMin, skSq := aggregator.VerifInsSkips(metric)
 	seed := r.U64()
 	kb := aggregator.VerifInsKeys(&key, top)
-	vb := aggregator.VerifInsValue(seed, metric, mv, sf)
+	var before []int32 // metrics the insert's metricIndexCache served just before this row
+	if r.Chance(45) {
+		for n := 1 + r.Intn(2); n > 0; n-- {
+			if r.Chance(70) {
+				before = append(before, int32(101+r.Intn(7))) // a user metric with skip flags
+			} else {
+				before = append(before, rowMetrics[r.Intn(len(rowMetrics))])
+			}
+		}
+	}
+	vb := aggregator.VerifInsValueAfter(seed, before, metric, mv, sf)
+	// what each lookup finds (for the model of the cache) and the pattern of F-C03c: this metric is known to neither
+	// the built-ins nor the journal, was looked up just before, and an earlier metric left flags in the cache
+	var lookups []string
+	for _, m := range append(append([]int32{}, before...), metric) {
+		lookups = append(lookups, fmt.Sprintf("(%s,%s)", vu.Z(int64(m)), mresTerm(m)))
+	}
+	stalePattern := false
+	if mresTerm(metric) == "U" && len(before) > 0 && before[len(before)-1] == metric {
+		for _, m := range before {
+			if a, b, c := aggregator.VerifInsSkips(m); a || b || c {
+				stalePattern = true
+			}
+		}
+	}
 	raw := append(append([]byte{}, kb...), vb...)
-	input := fmt.Sprintf("row kind=%s metric=%d t=%d tags=%s stags=%v top=%s sf=%v skips=%v/%v/%v hostile=%v count=%v set=%v min=%v max=%v sum=%v minh=%s maxh=%s mch=%s uniq=%d seed=%d",
-		kind, metric, key.Timestamp, sparseI(key.Tags[:]), nonEmpty(key.STags[:]), hzText(top), sf, skMax, skMin, skSq, hostile,
+	input := fmt.Sprintf("row kind=%s after=%v metric=%d t=%d tags=%s stags=%v top=%s sf=%v skips=%v/%v/%v hostile=%v count=%v set=%v min=%v max=%v sum=%v minh=%s maxh=%s mch=%s uniq=%d seed=%d",
+		kind, before, metric, key.Timestamp, sparseI(key.Tags[:]), nonEmpty(key.STags[:]), hzText(top), sf, skMax, skMin, skSq, hostile,
 		mv.Value.Count(), mv.Value.ValueSet, mv.Value.ValueMin, mv.Value.ValueMax, mv.Value.ValueSum,
 		hzText(mv.Value.MinHostTag), hzText(mv.Value.MaxHostTag), hzText(mv.Value.MaxCounterHostTag), mv.HLL.ItemsCount(), seed)
 
@@ -793,12 +830,12 @@ func rowCase(o *vu.Out, r *vu.Rng, idx int) {
 	term := "CNone"
 	big := mv.HLL.ItemsCount() > 400
 	if exact(mv, sf) && !big {
-		term = fmt.Sprintf("(CRow %s %d %s %s %s %s %s %s (%s,%s,%s) (%d,%d,%d) %s %s %s %s)", tab.term0(func() {
+		term = fmt.Sprintf("(CRow %s %d %s %s %s %s %s %s [%s] (%d,%d,%d) %s %s %s %s)", tab.term0(func() {
 			tab.sparseS(key.STags[:])
 			tab.hz(top)
 			tab.mvsTerm(mv)
 		}), key.Timestamp, vu.Z(int64(key.Metric)), sparseI(key.Tags[:]), tab.sparseS(key.STags[:]), vu.Z(tab.hz(top)), tab.mvsTerm(mv), q(sf),
-			vu.B(skMax), vu.B(skMin), vu.B(skSq), hv[0], hv[1], hv[2], segs(raw), utable, amin, amax)
+			strings.Join(lookups, ";"), hv[0], hv[1], hv[2], segs(raw), utable, amin, amax)
 	}
 	kinds := []string{"row/" + kind}
 	if hostile {
@@ -807,11 +844,20 @@ func rowCase(o *vu.Out, r *vu.Rng, idx int) {
 	if skMax || skMin || skSq {
 		kinds = append(kinds, "row/with-skips")
 	}
+	if len(before) > 0 {
+		kinds = append(kinds, "row/after-other-metric")
+		if metric < 0 && before[len(before)-1] > 100 {
+			kinds = append(kinds, "row/builtin-after-skip-metric")
+		}
+	}
 	if term == "CNone" {
 		kinds = append(kinds, "row/oracle-only")
 	}
 	line := o.Case(input, term, kind != "empty", kinds...)
 	for _, f := range fails {
+		if stalePattern && (f == "aggregates_differ" || f == "host_tag_roundtrip" || f == "host_value_without_tag") {
+			f = "unknown_metric_inherits_skip_flags" // the pattern of F-C03c, under its own name
+		}
 		o.Fail(f, line, input)
 	}
 	_ = idx
@@ -1119,6 +1165,10 @@ func bodyCase(o *vu.Out, r *vu.Rng, sh2 *agent.Agent, opt bodyOpts) (dupFound bo
 		}
 		return row
 	}
+	var skipMetrics []int32 // this body's user metrics carry skip flags (metrics 101..107 of the harness storage)
+	if opt.hostile == "" && r.Chance(45) {
+		skipMetrics = []int32{int32(101 + r.Intn(7)), int32(101 + r.Intn(7)), 107}[:2+r.Intn(2)]
+	}
 	var plan [][]planRow
 	if opt.pool {
 		plan = poolPlan(r, base)
@@ -1142,6 +1192,9 @@ func bodyCase(o *vu.Out, r *vu.Rng, sh2 *agent.Agent, opt bodyOpts) (dupFound bo
 				row = pr.row
 			} else {
 				row = randomRow(j)
+			}
+			if skipMetrics != nil && row.key.Metric > 0 && row.key.Metric < 100 {
+				row.key.Metric = skipMetrics[int(row.key.Metric)%len(skipMetrics)]
 			}
 			item, order := assemble(row, base)
 			items = append(items, item)
@@ -1186,7 +1239,7 @@ func bodyCase(o *vu.Out, r *vu.Rng, sh2 *agent.Agent, opt bodyOpts) (dupFound bo
 			accepted = false
 		}
 	}
-	input := fmt.Sprintf("body rk=%d base=%d hostile=%q pool=%v requests=%d rows=[%s]", rk, base, opt.hostile, opt.pool, nreq, strings.Join(text, " | "))
+	input := fmt.Sprintf("body rk=%d base=%d hostile=%q pool=%v skipmetrics=%v requests=%d rows=[%s]", rk, base, opt.hostile, opt.pool, skipMetrics, nreq, strings.Join(text, " | "))
 	if len(input) > 1500 {
 		input = input[:1500] + "…"
 	}
@@ -1206,10 +1259,25 @@ func bodyCase(o *vu.Out, r *vu.Rng, sh2 *agent.Agent, opt bodyOpts) (dupFound bo
 		fails = append(fails, "body_does_not_decode")
 	}
 	seen := map[string]int{}
-	user := 0
+	user, builtinChecked := 0, 0
 	for i := range rows {
 		d := &rows[i]
 		if d.metric < 0 {
+			// rows the aggregator writes about itself (contributors log: one value, counter 1, its own host):
+			// they must carry the sum of squares and min/max host of that single contribution
+			if err == nil && (d.metric == format.BuiltinMetricIDContributorsLog || d.metric == format.BuiltinMetricIDContributorsLogRev) {
+				builtinChecked++
+				v := d.agg[2]
+				if d.agg[0] != 1 || d.agg[3] != v || d.agg[4] != v || d.agg[5] != v*v {
+					fails = append(fails, "builtin_row_aggregates_not_the_merge")
+				}
+				hmin, e1 := readArgMin(d.host[0])
+				hmax, e2 := readArgMax(d.host[1])
+				want := data_model.TagUnion{I: aggregator.VerifInsAggHost}
+				if e1 != nil || e2 != nil || !tagMatches(hmin, want) || !tagMatches(hmax, want) {
+					fails = append(fails, "builtin_row_hosts_not_written")
+				}
+			}
 			continue
 		}
 		user++
@@ -1234,6 +1302,9 @@ func bodyCase(o *vu.Out, r *vu.Rng, sh2 *agent.Agent, opt bodyOpts) (dupFound bo
 		want := [6]float64{c.count, c.count, 0, 0, 0, 0}
 		if c.set {
 			want = [6]float64{c.count, c.count, c.min, c.max, c.sum, c.sumsq}
+			if _, _, skSq := aggregator.VerifInsSkips(d.metric); skSq {
+				want[5] = 0
+			}
 		}
 		if d.agg != want {
 			fails = append(fails, "body_aggregates_not_the_merge")
@@ -1270,6 +1341,10 @@ func bodyCase(o *vu.Out, r *vu.Rng, sh2 *agent.Agent, opt bodyOpts) (dupFound bo
 	if opt.pool {
 		kinds = append(kinds, "body/key-pool")
 	}
+	if skipMetrics != nil {
+		kinds = append(kinds, "body/skip-flag-metrics-then-builtin-rows")
+	}
+	o.Hist["body/builtin-rows-checked"] += builtinChecked
 	if len(expectUniq) > 0 {
 		kinds = append(kinds, "body/unique-wrap-chain")
 	}
@@ -1359,6 +1434,121 @@ func blocksCase(o *vu.Out, r *vu.Rng, first, second data_model.TagUnion, v1, v2 
 	return wrong
 }
 
+// blocks of several rows through one column object (Reset + DecodeColumn per block, as ch-go does); every row is
+// compared after its whole block has been decoded, and the rows of the first block (copied the way the API copies
+// them into its cache) once more after the next block has been decoded
+func multiRowBlocks(o *vu.Out, r *vu.Rng) {
+	useMax := r.Bool()
+	genBlock := func(n int) (tags []data_model.TagUnion, vals []float32, raw []byte) {
+		l := 3 + r.Intn(12)
+		for i := 0; i < n; i++ {
+			var t data_model.TagUnion
+			switch r.Intn(10) {
+			case 0:
+				t = data_model.TagUnion{I: int32(1 + r.Intn(1000))}
+			case 1:
+			default: // unmapped string hosts: same length, shorter, sometimes longer than the previous one
+				switch r.Intn(4) {
+				case 0:
+				case 1, 2:
+					l = 1 + r.Intn(l)
+				default:
+					l += r.Intn(8)
+				}
+				b := make([]byte, l)
+				for j := range b {
+					b[j] = byte('a' + r.Intn(26))
+				}
+				t = data_model.TagUnion{S: string(b)}
+			}
+			v := float32(0)
+			if !t.Empty() {
+				v = float32(r.Intn(64)-32) / 4
+			}
+			tags, vals = append(tags, t), append(vals, v)
+			raw = append(raw, argBytes(t, v)...)
+		}
+		return
+	}
+	n1, n2 := 2+r.Intn(5), 1+r.Intn(6)
+	t1, v1, raw1 := genBlock(n1)
+	t2, v2, raw2 := genBlock(n2)
+	var got1, saved1, got2 []data_model.ArgMinMaxStringFloat32
+	ok := true
+	if useMax {
+		var col chutil.ColArgMaxStringFloat32
+		col.Reset()
+		ok = col.DecodeColumn(proto.NewReader(bytes.NewReader(raw1)), n1) == nil && len(col) == n1
+		for _, x := range col {
+			got1 = append(got1, x.ArgMinMaxStringFloat32)
+		}
+		col.Reset()
+		ok = ok && col.DecodeColumn(proto.NewReader(bytes.NewReader(raw2)), n2) == nil && len(col) == n2
+		for _, x := range col {
+			got2 = append(got2, x.ArgMinMaxStringFloat32)
+		}
+	} else {
+		var col chutil.ColArgMinStringFloat32
+		col.Reset()
+		ok = col.DecodeColumn(proto.NewReader(bytes.NewReader(raw1)), n1) == nil && len(col) == n1
+		for _, x := range col {
+			got1 = append(got1, x.ArgMinMaxStringFloat32)
+		}
+		col.Reset()
+		ok = ok && col.DecodeColumn(proto.NewReader(bytes.NewReader(raw2)), n2) == nil && len(col) == n2
+		for _, x := range col {
+			got2 = append(got2, x.ArgMinMaxStringFloat32)
+		}
+	}
+	saved1 = got1 // struct copies: the string headers the API keeps in its cache
+	list := func(ts []data_model.TagUnion, vs []float32) (string, string) {
+		var a, b []string
+		for i := range ts {
+			a = append(a, argState(nil, ts[i], vs[i]))
+			b = append(b, fmt.Sprintf("%s/%v", hzText(ts[i]), vs[i]))
+		}
+		return "[" + strings.Join(a, ";") + "]", strings.Join(b, ",")
+	}
+	obs := func(as []data_model.ArgMinMaxStringFloat32) string {
+		var p []string
+		for _, a := range as {
+			p = append(p, arg3Term(a))
+		}
+		return "[" + strings.Join(p, ";") + "]"
+	}
+	c1, x1 := list(t1, v1)
+	c2, x2 := list(t2, v2)
+	input := fmt.Sprintf("column rows max=%v block1=[%s] block2=[%s]", useMax, x1, x2)
+	term := fmt.Sprintf("(CBlockRows %s %s %s %s)", c1, c2, obs(saved1), obs(got2))
+	line := o.Case(input, term, true, "column-multi-row-blocks")
+	if !ok {
+		o.Fail("host_column_unreadable", line, input)
+		return
+	}
+	bad := false
+	for i := range t1 {
+		if !tagMatches(saved1[i], t1[i]) || saved1[i].Val != v1[i] {
+			bad = true
+		}
+	}
+	stale := false
+	for i := range t2 {
+		if !tagMatches(got2[i], t2[i]) || got2[i].Val != v2[i] {
+			if i < n1 && !t1[i].Empty() && (t2[i].Empty() || (t2[i].I != 0) != (t1[i].I != 0)) {
+				stale = true // the pattern of F-C03b (receiver not cleared), under its own oracle name
+			} else {
+				bad = true
+			}
+		}
+	}
+	if bad {
+		o.Fail("host_column_rows_overwritten", line, input)
+	}
+	if stale {
+		o.Fail("host_column_keeps_previous_block", line, "column blocks "+input)
+	}
+}
+
 func main() {
 	seed := flag.Uint64("seed", 1, "")
 	n := flag.Int("n", 600, "")
@@ -1383,6 +1573,19 @@ func main() {
 		o.Finding("F-C03b", "gone")
 	}
 
+	{ // F-C03c: metric 1 (unknown to the journal) written twice in a row after metric 107 (all skip flags)
+		mv := &data_model.MultiValue{}
+		rng := rand.New(5)
+		mv.AddValueCounterHost(rng, 3, 1, data_model.TagUnion{I: 7})
+		mv.AddValueCounterHost(rng, 5, 1, data_model.TagUnion{I: 8})
+		vb := aggregator.VerifInsValueAfter(1, []int32{107, 1}, 1, mv, 1)
+		if len(vb) >= 48 && math.Float64frombits(binary.LittleEndian.Uint64(vb[40:])) == 0 {
+			o.Finding("F-C03c", "reproduced")
+		} else {
+			o.Finding("F-C03c", "gone")
+		}
+	}
+
 	for i := 0; i < *n; i++ {
 		switch {
 		case i%8 == 7:
@@ -1402,6 +1605,8 @@ func main() {
 			a, va := pick()
 			b, vb := pick()
 			blocksCase(o, r, a, b, va, vb, r.Bool(), true)
+			multiRowBlocks(o, r)
+			multiRowBlocks(o, r)
 		default:
 			rowCase(o, r, i)
 		}
